@@ -22,6 +22,9 @@ CLAIMED = {
  'C18': ('property-based differential and metamorphic testing: exhaustive LENGTH grid 0..=600 over all bearers and directions, proptest parameters/lengths, against from-the-specification EEA3/EIA3; involution, zero-tail and MAC-invariance relations; official test sets',
          'Every LENGTH 1..=600 (EEA3) and 0..=600 (EIA3) x 4 parameter draws covering all 32 bearers and both directions, plus 3*10^4 (thorough 3*10^5) generated cases per function with lengths to 2^16 (2^20) bits, COUNT edge values, exact and surplus message words: output == reference; EEA3 returns ceil(LENGTH/32) words with zero bits beyond LENGTH and is an involution on the first LENGTH bits; EIA3 is unchanged by garbage beyond LENGTH and equals the reference after a bit flip inside.',
          'Trusted: reference EEA3/EIA3 anchored on the official test sets. Inputs respect the stated preconditions (BEARER < 32, DIRECTION < 2, enough message words).', '5/C18'),
+ 'C11': ('property-based differential testing against affine big-integer arithmetic: constructed Jacobian representations (equal/opposite points with different Z, infinity forms), exhaustive single-byte fixed-base scalars and table entries, nibble/edge scalars, all pairs of boundary-limb field operands, operands crafted to land on reduction boundaries; proptest-generated rest',
+         'Points are [k]G from the affine reference, rewritten by the harness into chosen Jacobian/Montgomery representations; every library result is decoded with big integers only and compared with the affine group law (add incl. P=Q and P=-Q with equal and different Z and infinity operands, double, negate, variable-base and fixed-base multiplication incl. scalars >= n, affine conversion, SEC1 encodings, validity predicates with off-curve perturbations). All 8160 table entries and all 8160 single-byte fixed-base scalars exhaustively; 1.5*10^6 field-operation cases on boundary limbs per run plus crafted Montgomery/add/sub corner cases.',
+         'Trusted: harness/src/refimpl/{field,ec,sm2}.rs over num-bigint (G has order n; GM/T 0003.5 Annex examples reproduced). Field operands are canonical (< modulus). Dead code (fp_div2, fn_inv) is not a subject. Hooks used: re-exports of fields::{fp64,fn64} and of the table.', '5/C11'),
 }
 PENDING_REASON = 'check not implemented yet in this commit (work in progress; planned in DESIGN.md section 5) — not claimed until its machinery exists and is silent on the unchanged tree'
 
